@@ -179,7 +179,7 @@ def build(case):
         return G.stages_doc(case['n']), 'default'
     if fam == 'backendvar':
         return G.backend_var_doc(case['backend'], case['how'], case['key'], case['value'],
-                                 BACKEND_NEEDS.get(case['backend'], [])), 'default'
+                                 BACKEND_NEEDS.get(case['backend'], []), case.get('peer', False)), 'default'
     raise HarnessError('unknown case family %r' % (fam,))
 
 
@@ -192,6 +192,20 @@ def _shape_of_message(msg):
     msg = re.sub(r"'[^']*'|\"[^\"]*\"|\d+", '', str(msg))
     msg = re.split(r' in | at |:', msg)[0]
     return ' '.join(msg.split()[:5])
+
+
+def _plain(obj):
+    """only plain JSON values may travel through the process pool / into replay files"""
+    import json
+    return json.loads(json.dumps(obj, default=repr))
+
+
+def _raised_inside_dump(e):
+    import traceback
+    for frame, _ in traceback.walk_tb(e.__traceback__):
+        if frame.f_code.co_name == 'dump' and frame.f_code.co_filename.endswith('dosini.py'):
+            return True
+    return False
 
 
 def _fail_exc(col, case, stage, e, files):
@@ -231,7 +245,7 @@ class _Step(object):
     def fail(self, case, why, observed=None, sig=None):
         self.col.fail(self.whole, 'step %d of %d (%s): %s' % (self.idx + 1, len(self.whole['steps']),
                                                                self.step['family'], why),
-                      dict(observed or {}, step=self.idx), sig='%s:%s' % (self.whole['family'], sig or why))
+                      _plain(dict(observed or {}, step=self.idx)), sig='%s:%s' % (self.whole['family'], sig or why))
 
 
 def judge_history(col, case):
@@ -296,9 +310,16 @@ def judge(col, case, workdir=None):
                         variable_files = [os.path.join(d, 'input', 'variables.conf')]
                         with open(variable_files[0], 'w') as f:
                             f.write(USER_VARIABLES)
-                    c1 = experiment.model.conf.DOSINIExperimentConfiguration(
-                        d, platform, variable_files, {}, is_instance=False, createInstanceFiles=False, primitive=False)
-                    # the package itself must be a valid workflow that resolves (else it is not in the judged space)
+                    # The package is loaded exactly ONCE (as a run does): the same object then writes the instance
+                    # files. A failure before Dosini.dump is entered means the package is not in the judged space.
+                    try:
+                        c1 = experiment.model.conf.DOSINIExperimentConfiguration(
+                            d, platform, variable_files, {}, is_instance=False, createInstanceFiles=True,
+                            primitive=False)
+                    except Exception as e:
+                        if _raised_inside_dump(e):
+                            return _fail_exc(col, case, 'writing', e, files_of(conf_dir))
+                        raise
                     inst = c1.get_unreplicated_flowir().instance(**INSTANCE_FLAGS)
                     want = observe(inst)
         except Exception as e:
@@ -317,10 +338,6 @@ def judge(col, case, workdir=None):
                 Dosini.dump(copy.deepcopy(inst), conf_dir, update_existing=True, is_instance=True)
                 Dosini._dump_status(copy.deepcopy(inst), conf_dir)
                 Dosini._dump_output(copy.deepcopy(inst), conf_dir)
-            else:
-                c1 = experiment.model.conf.DOSINIExperimentConfiguration(
-                    d, platform, variable_files, {}, is_instance=False, createInstanceFiles=True, primitive=False)
-                want = observe(c1.get_unreplicated_flowir().instance(**INSTANCE_FLAGS))
             stage = 'loading'
             loaded = Dosini().load_from_directory(conf_dir, [], {}, is_instance=True, out_errors=errors)
         except Exception as e:
@@ -349,7 +366,7 @@ def judge(col, case, workdir=None):
         # the component name / stage / environment name is not part of the shape of a failure
         shape = _shape(path)
         col.fail(case, '%s: written %r, loaded back %r (%s)' % (D.path_str(path), a, b, kind),
-                 {'path': [str(p) for p in path], 'kind': kind, 'written': a, 'loaded': b, 'files': files},
+                 _plain({'path': [str(p) for p in path], 'kind': kind, 'written': a, 'loaded': b, 'files': files}),
                  sig='%s:%s' % (shape, kind))
     return 'fail'
 
@@ -583,6 +600,9 @@ def run(ctx):
                 for value in ('5', '1.5:3.0'):
                     backendvar.append({'family': 'backendvar', 'backend': backend, 'how': how, 'key': key,
                                        'value': value})
+                # ... while the component of the later stage names the backend literally
+                backendvar.append({'family': 'backendvar', 'backend': backend, 'how': how, 'key': key,
+                                   'value': '0 0 1', 'peer': True})
     cases += backendvar
     cases = with_styles(cases)
     # histories: several round trips in one process (fresh directories) and several writes into one directory
@@ -617,6 +637,10 @@ def run(ctx):
         for cand in (viable[d] if ctx.thorough else picks(viable[d], 2)):
             e2e.append({'family': 'e2e', 'doc': 'option', 'settings': [[d, cand]], 'via': 'component',
                         'platform': 'default', 'uservars': False, 'style': 'conf'})
+    # the same through a package that is loaded first (the loader has then already seen every component once)
+    for c in backendvar:
+        if c.get('peer') or c['value'] == '5':
+            e2e.append(dict(c, family='e2e', doc='backendvar', platform='default', uservars=False, style='conf'))
     ctx.count('cases', len(cases) + len(e2e))
     ctx.pmap('verif.props.c19', 'worker', chunks(e2e, 8) + chunks(cases, 40))
     unjudged = [d for d, _ in table if not ctx.extra.get('_judged:' + d)]
